@@ -130,3 +130,18 @@ _m("C04",
    _COMMON + ["stiff or exploding systems are excluded by construction",
               "Hill exponents are integers here: with a fractional exponent the rate is undefined as soon as the "
               "integrator overshoots below zero, which the property excludes as not well-posed"])
+
+_m("C11",
+   "(a) constant volume: finite-state networks as in C05 plus open birth-death families with zero-order inflow "
+   "(finite-state projection, lost mass < 1e-12), V in (0.2,5), through VolumeSSASimulator.py_volume_simulate with a "
+   "constant Volume object and py_simulate_model(volume=V, stochastic=True); N1 = 10k / 40k seeded paths against the "
+   "master equation with volume-scaled reference propensities (two-stage pooled chi-square on marginals and "
+   "consecutive joints).  (b) growth and division: StochasticTimeThresholdVolume and StateDependentVolume with growth "
+   "rates in [0.01,2], V0 in [0.5,2], division volumes 1.2..4 x V0, noise 0 / 0.05 / 0.2, dt = 2^-4..1, horizons with "
+   "and without the division, models with positive propensities and models whose total propensity is or becomes "
+   "zero: result is a prefix of the grid, truncated iff flagged divided, V > 0 and non-decreasing, within one step of "
+   "V0 e^{gt}; with noise 0 the division step equals the predicted one (+-1 step).  Non-trivial: (a) V != 1 with an "
+   "order != 1 or non-mass-action reaction and >= 2 probable states; (b) division inside the horizon or a "
+   "zero-propensity model.",
+   _COMMON + ["statistical power as C05", "bioscrape's own ln 2 constant (0.69314718056) is used for the reference growth law"],
+   budget={"quick": 240, "thorough": 2400})
